@@ -1200,6 +1200,12 @@ def _real_clang_job(args):
     kind = rng.choice(["valid_single", "valid_multi"])
     sc = make_scenario(rng, "build", kind, force)
     sc["name"] = "real_clang%d" % i
+    if i % 2:
+        # an optimising backend: undefined behaviour in the IR (a call with the wrong calling
+        # convention ...) shows as an executable that behaves unlike the program under lli
+        sc["backend_args"] = ["-O2"]
+        sc["opts"] += ["--backend-args=-O2"]
+        sc["name"] += ":O2"
     root = os.path.join(work_root(), "C18", "c%d" % i)
     viol = []
     built = exec_scenario(sc, os.path.join(root, "build"), real_clang=True, keep=True)
